@@ -275,8 +275,87 @@ def r05e(run):
               "with key.lower() without the not-islower guard", necessity="unbounded recursion on unknown keys")
 
 
+def r05f(run):
+    """a field's own alias_from overrides the options' alias_from_generator"""
+    f = run.repo.func("utype.parser.field", "Field.get_alias_from")
+    fa = analysis(f)
+    if "generator" not in f.params:
+        raise AnalysisError("Field.get_alias_from has no `generator` parameter")
+    P = prov(fa)
+
+    def from_generator(n, e, depth=0) -> bool:
+        if depth > 4:
+            return False
+        if isinstance(e, ast.Name):
+            if e.id == "generator" and fa.rd.is_param_only(n, "generator"):
+                return True
+            for o in P.of_name(n, e.id):
+                if o.kind == "param" and o.text == "generator":
+                    return True
+                if o.kind in ("iter", "iter-unpack", "sub") and o.node is not None:
+                    src = o.node if o.kind != "sub" else o.node.value
+                    if any(isinstance(x, ast.Name) and x.id == "generator" for x in ast.walk(src)):
+                        return True
+        elif isinstance(e, ast.AST):
+            return any(isinstance(x, ast.Name) and from_generator(n, x, depth + 1) for x in ast.walk(e) if x is not e)
+        return False
+
+    uses = 0
+    for n, c in fa.all_calls():
+        if call_attr(c) in ("extend", "append", "update", "add") and isinstance(c.func, ast.Attribute) and c.args \
+                and from_generator(n, c.args[0]):
+            uses += 1
+            fs = facts(fa, n)
+            ok = ("self.alias_from", False) in fs
+            run.check("R05f", f, "generated aliases are added only when the field declares no alias_from of its own", ok,
+                      construct="alias generator applied on top of the field's own alias_from",
+                      message=f"`{unparse(c)[:60]}` adds the generator's aliases without the field's alias_from being empty",
+                      necessity="docs (options.md): the generator applies to fields without their own alias_from. A "
+                                "generated spelling now feeds a field that declared other aliases: the key is consumed by "
+                                "that field instead of being unknown (masks absence, raises AliasConflictError)", node=c)
+    run.floor("R05f", "uses of the alias generator", uses, 1)
+
+
+def effective_arg(call: ast.Call, callee, name: str):
+    """the expression a call binds to parameter `name` of callee (explicit, positional, or the declared default)"""
+    v = kwarg(call, name)
+    if v is not None:
+        return v
+    params = [p for p in callee.params if p not in ("self", "cls")]
+    if name in params:
+        i = params.index(name)
+        if i < len(call.args) and not any(isinstance(a, ast.Starred) for a in call.args[: i + 1]):
+            return call.args[i]
+    return callee.param_default(name)
+
+
+def r05g(run):
+    """defaults applied while parsing are the immediate (non-deferred) ones"""
+    pd, A, B = c06.siblings(run)
+    g = run.repo.func("utype.parser.field", "ParserField.get_default")
+    if "defer" not in g.params:
+        raise AnalysisError("ParserField.get_default has no `defer` parameter")
+    total = 0
+    for f in (A, B):
+        fa = analysis(f)
+        for n, c in fa.all_calls():
+            if call_attr(c) != "get_default":
+                continue
+            total += 1
+            v = effective_arg(c, g, "defer")
+            ok = isinstance(v, ast.Constant) and v.value is False
+            run.check("R05g", f, f"`{unparse(c)[:50]}` asks for the non-deferred default (defer=False)", ok,
+                      construct="parse-time default with defer != False",
+                      message=f"{f.qualname}: `{unparse(c)}` binds defer={unparse(v) if v is not None else 'nothing'} "
+                              f"(explicit argument or the declared default of get_default)",
+                      necessity="with defer=None get_default skips the defer test: a Field(defer_default=True) default "
+                                "(or Options(defer_default=True)) is evaluated and stored at parse time although it must "
+                                "stay absent until the attribute is read", node=c)
+    run.floor("R05g", "get_default calls in the lookup strategies", total, 4)
+
+
 def check(run):
-    run.rules_run += ["R05a", "R05b", "R05c", "R05d", "R05e"]
+    run.rules_run += ["R05a", "R05b", "R05c", "R05d", "R05e", "R05f", "R05g", "R06f"]
     run.explain("C05 (enforcement skeleton, not the contract itself): (R05a) get_default returns copy_value(default), "
                 "copy_value recurses into sequences and dicts; (R05b) every parse_value in the binding code is dominated "
                 "by is_no_input being false and a no-input field receives only its default; (R05c) AbsenceError exactly "
@@ -289,3 +368,7 @@ def check(run):
     r05c(run)
     r05d(run)
     r05e(run)
+    r05f(run)
+    r05g(run)
+    pd, A, B = c06.siblings(run)
+    c06.r06f(run, A, B)
